@@ -231,7 +231,12 @@ def mixed_strategy(draw, tier):
         'src_work': draw(st.lists(scen.src_work_ms, min_size=1, max_size=2)),
         'x_work': draw(st.lists(scen.src_work_ms, min_size=1, max_size=3)),
         'k_work': draw(st.lists(scen.work_ms, min_size=1, max_size=2)),
-        'net': {**draw(scen.net_strategy(max_drops=0)), 'keyed': draw(st.booleans())},
+        'net': {**draw(scen.net_strategy(max_drops=0)), 'keyed': draw(st.booleans()),
+                # publishes of the ephemeral source that never reach the listener (PUB/SUB may drop towards a slow or still connecting subscriber)
+                'drops_to': [['X', 'K', i] for i in sorted(draw(st.sets(st.integers(0, 40), max_size=4)))]},
+        # some of X's messages carry only part of its topics
+        'x_topics_by_seq': {str(k): draw(st.lists(st.sampled_from(xtopics), min_size=1, max_size=len(xtopics), unique=True))
+                            for k in draw(st.sets(st.integers(0, 12), max_size=4))},
         'starts': draw(st.lists(st.sampled_from([0, 0, 0, 40, 300]), min_size=3, max_size=3)),
         'ipc': draw(st.booleans()),
     }
@@ -242,9 +247,11 @@ def run_mixed(case):
     st_ = case['starts']
     nodes = [{'id': 'S', 'beh': {'kind': 'src', 'n': case['n'], 'work': case['src_work']}, 'required': ['K'] if case['other'] == 'sync' else [], 'start': st_[0]}]
     if case['xkind'] == 'src':
-        nodes.append({'id': 'X', 'beh': {'kind': 'src', 'n': case['n'] * 3, 'work': case['x_work'], 'topics': case['xtopics']}, 'start': st_[1]})
+        nodes.append({'id': 'X', 'beh': {'kind': 'src', 'n': case['n'] * 3, 'work': case['x_work'], 'topics': case['xtopics'],
+                                         'topics_by_seq': case.get('x_topics_by_seq')}, 'start': st_[1]})
     else:
-        nodes.append({'id': 'X', 'sources': ['S?'], 'beh': {'kind': 'xf', 'work': case['x_work'], 'topics': case['xtopics']}, 'start': st_[1]})
+        nodes.append({'id': 'X', 'sources': ['S?'], 'beh': {'kind': 'xf', 'work': case['x_work'], 'topics': case['xtopics'],
+                                                            'topics_by_seq': case.get('x_topics_by_seq')}, 'start': st_[1]})
     nodes.append({'id': 'K', 'sources': ['S' if case['other'] == 'sync' else 'S?', 'X' + case['mark'] + scen.sub_suffix(case['sub'])], 'nout': 0,
                   'beh': {'kind': 'sink', 'work': case['k_work']}, 'start': st_[2]})
     p = harness.Pipeline(nodes, net=case['net'], seed=9, ipc=case.get('ipc', False))
@@ -291,6 +298,8 @@ def run_mixed(case):
         if last is not None and last[0] == inc and mid <= last[1]:
             return bad(f'K got X message {mid} after message {last[1]}', 'mixed-receiver:ephemeral-out-of-order', classes)
         last = (inc, mid)
+    if case['net'].get('drops_to'): classes.append('publishes towards the listener lost')
+    if case.get('x_topics_by_seq'): classes.append('ephemeral publisher varies its topics')
     if with_both: classes.append('ephemeral set delivered together with a synchronized frame')
     if alone: classes.append('ephemeral set delivered alone')
     return ok(with_x >= 3 and len(calls) >= 5, classes, {'sets': len(calls), 'with_ephemeral': with_x, 'together': with_both})
